@@ -313,6 +313,8 @@ pub struct BlockIntent {
     pub name: String,
     pub address: Option<Vec<u8>>,
     pub r#ref: Option<RefKey>,
+    /// further admissible references of a hand-built multi-ref query (soundness only)
+    pub extra_refs: Vec<RefKey>,
     pub min: Option<Value>,
     pub many: bool,
     pub collateral: bool,
@@ -324,7 +326,9 @@ impl BlockIntent {
         if self.address.is_some() {
             s.push("from");
         }
-        if self.r#ref.is_some() {
+        if !self.extra_refs.is_empty() {
+            s.push("multi-ref");
+        } else if self.r#ref.is_some() {
             s.push("ref");
         }
         match &self.min {
@@ -356,6 +360,7 @@ pub fn intents(p: &Program, tx: &TxSpec, args: &ArgMap, fee: Option<i128>, min_u
             name: spec.name.to_lowercase(),
             address: spec.from.map(|i| p.parties[i].addr.clone()),
             r#ref,
+            extra_refs: vec![],
             min: match &spec.min {
                 None => Some(Value::new()),
                 Some(a) => eval_amount(p, a, args, fee, min_utxo),
@@ -432,7 +437,19 @@ pub fn check_selection(
                 }
             }
         }
-        if let Some(r) = &b.r#ref {
+        if !b.extra_refs.is_empty() {
+            for u in sel {
+                let k = rk(&u.r#ref);
+                if b.r#ref.as_ref() != Some(&k) && !b.extra_refs.contains(&k) {
+                    rep.violate(
+                        "C03",
+                        "S2-ref",
+                        combo.clone(),
+                        format!("{ctx}: block `{}` ({combo}) lists {} references but was bound {}", b.name, b.extra_refs.len() + b.r#ref.is_some() as usize, show_ref(&k)),
+                    );
+                }
+            }
+        } else if let Some(r) = &b.r#ref {
             for u in sel {
                 if &rk(&u.r#ref) != r {
                     rep.violate(
